@@ -75,7 +75,7 @@ def run(ctx):
     n_eval = 0
     samples = []
     ci = 0
-    for _ in range(ctx.n(150, 3000)):
+    for _ in range(ctx.n(400, 3000)):
         g, params = item_graph(rng)
         over = rng.sample(params, rng.randint(1, len(params)))
         mode = rng.choice(["zip", "product"])
